@@ -115,6 +115,7 @@ def run(repo, rep, tier):
     _notation_rule(repo, rep)
     factories_agree(repo, rep)
     keys_as_stored(repo, rep)
+    readers_answer_from_tables(repo, rep)
     # ---- R3 ---------------------------------------------------------------
     mod = repo.module(VM)
     for f in mod.all_funcs():
@@ -936,9 +937,11 @@ def factories_agree(repo, rep):
         if f is None:
             raise AnalysisError('ValueMapping.%s vanished' % fn)
         r9.functions.add(f.fq)
-        cs = [c for c in walk_no_nested(f.node) if isinstance(c, ast.Call)
-              and (dotted(c.func) or '').split('.')[-1] in ('get_class',
-                                                            'GetClass')]
+        from ..inline import Flat
+        cs = [c for c in walk_no_nested(Flat(f).node)
+              if isinstance(c, ast.Call)
+              and (dotted(c.func) or '').split('.')[-1].split('$')[-1] in (
+                  'get_class', 'GetClass')]
         if len(cs) != 1:
             raise AnalysisError('%s: %d class requests' % (fn, len(cs)))
         calls[fn] = cs[0]
@@ -1095,3 +1098,61 @@ def keys_as_stored(repo, rep):
                                        list(sh)))
     if n_reads < 3:
         raise AnalysisError('C20.R10: only %d table reads found' % n_reads)
+
+
+def readers_answer_from_tables(repo, rep):
+    """C20.R11: tovalues(), tobinary() and items() answer from the tables
+    that _create_for_element built.  The builder reconciles the sizes of the
+    two qualifier arrays on copies (padding with values_default, cutting the
+    surplus) and resolves ranges; the qualifier objects of the element stay
+    as they were.  A reader that goes back to `<element>.qualifiers` walks
+    the unreconciled arrays: entries filled in from values_default are
+    missing from items(), and a surplus Values string is looked up in a
+    table that does not have it."""
+    r11 = rep.rule('C20.R11', 'the lookup methods read the translation '
+                   'tables, never the raw qualifiers of the element')
+    vm = repo.cls(VM, 'ValueMapping')
+    roots = [n for n in ('tovalues', 'tobinary', 'items') if
+             n in vm.methods]
+    if len(roots) < 3:
+        raise AnalysisError('C20.R11: lookup methods of ValueMapping '
+                            'vanished')
+    builder = vm.methods.get('_create_for_element')
+    if builder is None or not any(
+            isinstance(n, ast.Attribute) and n.attr == 'qualifiers'
+            for n in ast.walk(builder.node)):
+        raise AnalysisError('C20.R11: the table builder no longer reads the '
+                            'qualifiers (rule premise gone)')
+    # closure of the readers over calls of own methods / properties
+    props = {n for n, m in vm.methods.items() if any(
+        dotted(d) == 'property' for d in m.node.decorator_list)}
+    todo, seen = list(roots), []
+    while todo:
+        n = todo.pop()
+        if n in seen:
+            continue
+        seen.append(n)
+        for x in ast.walk(vm.methods[n].node):
+            if isinstance(x, ast.Attribute) and \
+                    isinstance(x.value, ast.Name) and \
+                    x.value.id in ('self', 'cls') and \
+                    x.attr in vm.methods and x.attr != '_create_for_element':
+                todo.append(x.attr)
+    for n in sorted(seen):
+        f = vm.methods[n]
+        r11.sites += 1
+        r11.functions.add(f.fq)
+        raw = [x for x in ast.walk(f.node) if isinstance(x, ast.Attribute)
+               and x.attr == 'qualifiers']
+        # `self.element` / `self._element_obj` handed to something else is
+        # not a read of the arrays; only the qualifiers attribute is
+        r11.ob(not raw, f.qualname + ':tables-only',
+               {'reads_raw_qualifiers': [norm(x, 60) for x in raw]})
+        for x in raw:
+            rep.finding(r11, f.qualname, norm(x, 70), 'raw-qualifier-read',
+                        VM, x.lineno,
+                        'a lookup method reads the qualifiers of the element '
+                        'instead of the tables built from the size-'
+                        'reconciled copies: entries added from '
+                        'values_default are missing and cut-off Values '
+                        'strings are still there')
